@@ -2,9 +2,9 @@
      dijkstra_sound   : Found p c  -> p is a walk of the graph from s to t of cost exactly c
      dijkstra_optimal : Found p c  -> every walk from s to t costs at least c          (any weights, any finite graph)
      dijkstra_noroute : NoRoute    -> there is no walk from s to t
-   The outcome Fail ("the answer did not pass its own certificate") is excluded in every statement; that the
-   label-setting loop never produces it for non-negative weights is NOT proved here (dijkstra_complete is the missing
-   part; the checks report any Fail as a violation of the correspondence). *)
+   The outcome Fail ("the answer did not pass its own certificate") is excluded in every statement of this file; that
+   the label-setting loop never produces it (in-range targets, non-negative weights, no parallel edges) is
+   cert_dijkstra_total in Avoid/CertDijkstraTotal.v (the checks still report any Fail as a violation). *)
 From Adapt Require Import Num.Qaux Avoid.CertDijkstraModel.
 Local Open Scope Z_scope.
 
